@@ -400,7 +400,7 @@ class CohGen:
                 members.append(S.Prop(t, nm))
             elif k == 'op':
                 op = r.choice(['+', '-', '*', '==', '<', '[]', '()', 'u-'])
-                if op == '==' or any(m.k == 'Op' and m.op == op.replace('u', '') for m in members):
+                if any(m.k == 'Op' and m.op == op.replace('u', '') for m in members):
                     continue
                 me = S.T(name, self.cur_ns) if not tmpl else S.T('This')
                 if tmpl:
